@@ -168,6 +168,18 @@ PROPS = {
         assumptions=[],
         open=["lifting the one-step lifecycle lemmas to all reachable states through the re-entrant FD propagation loop is carried by the probes on the real engine"],
     ),
+    "C24": dict(
+        title="library list relations (member, member1, append, rember, permute, distinct, cons, first, rest, empty)",
+        props_module="PvModel.Props.C24",
+        rule="every relation in random argument modes (each argument a fresh variable, a list with a variable element, or ground; lists of length "
+             "<=4 over {1,2,3} with repeats); finite modes: the ground instances of the answers over a finite universe (through the reported "
+             "constraints) are exactly the ground tuples in the relation, member yields one answer per matching position and member1 one per "
+             "distinct value; infinite modes: first 25 answers, every instance in the relation; permute is kept to proper lists of equal length "
+             "(known finding D20 otherwise); non-trivial = >=2 answers; distinct = distinct case lines",
+        trusted=SEARCH_TRUST,
+        assumptions=[],
+        open=["ground-semantics theorems (Sat γ (rel args) ↔ List specification) for the recursive relations are not proved yet; the relations' elaborated bodies are part of the model and are diffed against the implementation; the oracle is Vec-based"],
+    ),
     "C01": dict(
         title="unification (State::unify vs unifyF)",
         props_module="PvModel.Props.C01",
